@@ -77,6 +77,39 @@ pub fn run(r: &mut Report) {
             }
         }
     }
+    // interoperability: key ids computed by the reference implementation (the demo layout shipped with the repository was written by it)
+    // are exactly the ids this library computes, so no entry of that key table may be dropped; and every id equals an independent
+    // computation: hex(sha256(OLPC canonical JSON of {keyid_hash_algorithms?, keytype, keyval: {public}, scheme}))
+    {
+        let text = std::fs::read_to_string("/repo/tests/test_metadata/demo.layout").unwrap();
+        let doc: serde_json::Value = serde_json::from_str(&text).unwrap();
+        let listed: Vec<String> = doc["signed"]["keys"].as_object().unwrap().keys().cloned().collect();
+        let parsed: Result<Metablock, _> = serde_json::from_str(&text);
+        let kept: Vec<String> = match &parsed { Ok(mb) => match &mb.metadata { MetadataWrapper::Layout(l) => l.keys.keys().map(|k| serde_json::to_value(k).unwrap().as_str().unwrap().to_string()).collect(), _ => vec![] }, Err(_) => vec![] };
+        let mut a = listed.clone(); a.sort(); let mut b = kept.clone(); b.sort();
+        r.case("reference-key-ids", json!({"document": "tests/test_metadata/demo.layout", "listed": listed}), "every listed key is kept under its listed id", format!("{:?}", kept), a == b && !a.is_empty());
+        fn olpc(v: &serde_json::Value, out: &mut String) {
+            match v {
+                serde_json::Value::String(s) => { out.push('"'); out.push_str(&s.replace('\\', "\\\\").replace('"', "\\\"")); out.push('"'); }
+                serde_json::Value::Array(a) => { out.push('['); for (i, x) in a.iter().enumerate() { if i > 0 { out.push(',') } olpc(x, out) } out.push(']') }
+                serde_json::Value::Object(o) => { out.push('{'); let mut ks: Vec<&String> = o.keys().collect(); ks.sort(); for (i, k) in ks.iter().enumerate() { if i > 0 { out.push(',') } olpc(&serde_json::Value::String((*k).clone()), out); out.push(':'); olpc(&o[*k], out) } out.push('}') }
+                other => out.push_str(&other.to_string()),
+            }
+        }
+        for (name, k, _) in pubs.iter() {
+            let js = serde_json::to_value(k).unwrap();
+            let mut pre = serde_json::Map::new();
+            if let Some(h) = js.get("keyid_hash_algorithms") { if !h.is_null() { pre.insert("keyid_hash_algorithms".into(), h.clone()); } }
+            pre.insert("keytype".into(), js["keytype"].clone());
+            pre.insert("keyval".into(), json!({"public": js["keyval"]["public"]}));
+            pre.insert("scheme".into(), js["scheme"].clone());
+            let mut text = String::new();
+            olpc(&serde_json::Value::Object(pre), &mut text);
+            let want: String = ring::digest::digest(&ring::digest::SHA256, text.as_bytes()).as_ref().iter().map(|b| format!("{:02x}", b)).collect();
+            let got = serde_json::to_value(k.key_id()).unwrap().as_str().unwrap().to_string();
+            r.case("key-id-is-sha256-of-canonical-description", json!({"key": name}), &want, got.clone(), got == want);
+        }
+    }
     // RFC 8410 ed25519 SPKI (AlgorithmIdentifier without parameters) must be importable
     let raw = key(1).public().as_bytes().to_vec();
     let mut rfc8410 = vec![0x30, 0x2a, 0x30, 0x05, 0x06, 0x03, 0x2b, 0x65, 0x70, 0x03, 0x21, 0x00];
